@@ -63,13 +63,42 @@ Definition tpanic (st : state) (t : nat) : option (state * label Cell Res) :=
   | TDead _ _ _ => None
   end.
 
-(* schedule entries: (thread, panic?) *)
+(* The implementation's scheduling points are: a backend call about to be executed, a lock
+   request (only with the wrapper), the end of a command. Between two of them a thread performs
+   one visible step followed by the silent ones: releases, and — without the wrapper —
+   acquisitions. [silent] says whether thread t would move on without being scheduled. *)
+Definition silent (st : state) (t : nat) : bool :=
+  match thr Cell Res st t with
+  | TRun _ _ _ (CRet _) _ _ _ _ => true
+  | TWait _ _ _ _ _ _ _ => negb locking
+  | _ => false
+  end.
+Fixpoint drain (fuel : nat) (st : state) (t : nat) (acc : list (label Cell Res)) : state * list (label Cell Res) :=
+  match fuel with
+  | O => (st, rev acc)
+  | S f => if silent st t then
+             match tstep st t with
+             | Some (st', l) => drain f st' t (l :: acc)
+             | None => (st, rev acc)
+             end
+           else (st, rev acc)
+  end.
+Definition tmacro (st : state) (t : nat) : option (state * list (label Cell Res)) :=
+  match tstep st t with
+  | Some (st', l) => Some (drain 64 st' t [l])
+  | None => None
+  end.
+
+(* schedule entries: (thread, the injected panic fired during this step) *)
 Fixpoint run_sched (st : state) (sched : list (nat * bool)) : option (state * list (label Cell Res)) :=
   match sched with
   | [] => Some (st, [])
   | (t, pn) :: r =>
-      match (if pn then tpanic st t else tstep st t) with
-      | Some (st', l) => match run_sched st' r with Some (st'', ls) => Some (st'', l :: ls) | None => None end
+      match tmacro st t with
+      | Some (st1, ls1) =>
+          let '(st2, ls2) := if pn then match tpanic st1 t with Some (s, l) => (s, [l]) | None => (st1, []) end
+                             else (st1, []) in
+          match run_sched st2 r with Some (st'', ls) => Some (st'', ls1 ++ ls2 ++ ls) | None => None end
       | None => None
       end
   end.
